@@ -13,7 +13,8 @@ META = {
             "return order; (sqlite) statements are atomic, mutate is a transaction under SQLite's lock ladder "
             "with arbitrary SQLITE_BUSY refusals, and results and committed database equal the sequential run of "
             "the calls that did not report BUSY, in commit order; corollaries: n successful increments add n, Adds "
-            "of one key succeed at most once, Emplace keeps the first value, every Append lands exactly once. "
+            "of one key succeed at most once, Removes of one key exactly once, Emplace keeps the first value, every "
+            "Append lands exactly once. "
             "Lock/transaction skeletons are re-extracted from mem_kv.go / sqlite3_kv.go / psql_kv.go on every run; "
             "recorded concurrent histories of the real backends are decided by a Coq linearizability checker "
             "(proved sound) and by accounting checks.",
@@ -35,7 +36,9 @@ PROOFS = ["theories/Props/C06.vo"]
 STATEMENT_FILES = ["theories/Props/C06.v", "theories/Kv/AtomicGen.v"]
 
 ERR = {"not_found": "ENotFound", "exists": "EExists", "key_too_long": "EKeyTooLong", "decode": "EDecode",
-       "user": "EUser", "busy": "EBusy", "other": "EOther", "panic": "EPanic"}
+       "user": "EUser", "busy": "EBusy", "other": "EOther", "panic": "EPanic",
+       "upanic": "EPanic"}   # upanic: the panic value of the user's own function came back out of Mutate
+MUT = {"incr": "mf_incr", "incr-fail": "mf_err", "incr-cancel": "mf_cancel", "incr-panic": "mf_panic"}
 
 
 def lit(hexs):
@@ -49,7 +52,9 @@ def uop(o):
     t = o["op"]
     if t == "count":
         return "UCount"
-    return {"incr": "UMutate %s mf_incr" % k, "append": "UAppendBytes %s %s" % (k, v),
+    if t in MUT:
+        return "UMutate %s %s" % (k, MUT[t])
+    return {"append": "UAppendBytes %s %s" % (k, v),
             "add": "UAdd %s %s" % (k, v), "emplace": "UEmplace %s %s" % (k, v),
             "replace": "UReplace %s %s" % (k, v), "remove": "URemove %s" % k,
             "get": "UGet %s" % k, "getbytes": "UGetBytes %s" % k}[t]
@@ -92,11 +97,19 @@ def ref_step(m, o):
     if t == "count":
         return m, "ok", len(m)
     cur = m.get(k)
-    if t == "incr":
+    if t in MUT:
         if cur is None:
             return m, "not_found", None
         if not json_ok(cur):
             return m, "decode", None
+        # a Mutate whose function fails, cancels or panics changes nothing,
+        # whatever the function did to its argument before
+        if t == "incr-fail":
+            return m, "user", None
+        if t == "incr-cancel":
+            return m, "ok", None
+        if t == "incr-panic":
+            return m, "upanic", None
         if not (cur.isdigit() and len(cur) > 0):
             return m, "user", None
         return dict(m, **{k: inc_dec(cur)}), "ok", None
@@ -199,7 +212,22 @@ def impl_oracle(run):
         d.update(extra)
         return d
 
-    bad = [c for c in calls if c["e"] in ("other", "panic")]
+    hung = [c for c in calls if c["e"] == "hang"]
+    if hung:
+        c = hung[0]
+        out.append(("impl:hang:%s:%s" % (run.get("name", st), be),
+                    "%s did not return: %s" % (c["op"]["op"], c.get("msg")),
+                    rep({"expected": "every call returns once the call holding the lock / transaction has returned"})))
+        return out
+    if st == "forced":
+        idle = [c for c in calls if c["t"] == 3 and c["e"] == "busy"]
+        if idle:
+            c = idle[0]
+            out.append(("impl:busy-when-idle:%s:%s" % (run.get("name", st), be),
+                        "%s reported BUSY although every other call had returned: something of an earlier call "
+                        "(a lock, an open transaction) was left behind" % c["op"]["op"],
+                        rep({"expected": "a call made while no other call is in progress is not refused"})))
+    bad = [c for c in calls if c["e"] in ("other", "panic") or (c["e"] == "upanic" and c["op"]["op"] != "incr-panic")]
     if bad:
         c = bad[0]
         out.append(("impl:%s:%s:%s" % (c["e"], c["op"]["op"], be),
@@ -258,6 +286,19 @@ def impl_oracle(run):
                     out.append(("impl:append-order:" + be, "tokens of goroutine %d are not in program order" % t,
                                 rep({"expected": "per-goroutine order preserved"})))
                     break
+    elif st == "removerace":
+        for k, f in fin.items():
+            cs = [c for c in calls if c["op"]["k"] == k]
+            oks = [c for c in cs if c["e"] == "ok"]
+            nfs = [c for c in cs if c["e"] == "not_found"]
+            got = f.get("b")
+            good = (len(oks) == 1 and got is None) or (len(oks) == 0 and got is not None and not nfs)
+            if not good or any(c["e"] not in ("ok", "not_found", "busy") for c in cs):
+                out.append(("impl:remove-once:" + be,
+                            "Removes of the existing key %r: %d reported success, %d not-found, key then holds %r"
+                            % (dstr(k), len(oks), len(nfs), dstr(got)),
+                            rep({"expected": "exactly one success, all others not-found (or busy), key absent"})))
+                break
     elif st in ("addrace", "emplacerace"):
         for k, f in fin.items():
             cs = [c for c in calls if c["op"]["k"] == k]
@@ -273,6 +314,15 @@ def impl_oracle(run):
                                 rep({"expected": "exactly one success whose value the key holds"})))
                     break
             else:
+                reads = [c for c in cs if c["op"]["op"] == "getbytes" and c["e"] == "ok"]
+                oks = [c for c in oks if c["op"]["op"] == "emplace"]
+                if any(c["b"] != got for c in reads):
+                    c = next(c for c in reads if c["b"] != got)
+                    out.append(("impl:emplace-overwritten:" + be,
+                                "key %r read %r after an Emplace of it had returned, and holds %r in the end: a later "
+                                "Emplace overwrote the value" % (dstr(k), dstr(c["b"]), dstr(got)),
+                                rep({"expected": "once an Emplace has returned the value never changes (nothing else writes the key)"})))
+                    break
                 cand = [c for c in oks if not any(d["ret"] < c["inv"] for d in oks if d is not c)]
                 good = (got is None and not oks) or any(c["op"]["v"] == got for c in cand)
                 if not good:
@@ -287,6 +337,8 @@ def acases(run):
     """Coq cases for one run."""
     st = run["stream"]
     calls = run["calls"]
+    if any(c["e"] == "hang" for c in calls):
+        return []     # reported by the oracle; there are no final contents to compare
     fin = truth(run)
     if st in ("lin", "forced"):
         init = "[" + "; ".join(uop(o) for o in run.get("init") or []) + "]"
@@ -305,14 +357,25 @@ def acases(run):
         return ["CAppend 8 %s %s" % (oks, lit(fin[0].get("b") or ""))]
     code = {"ok": 0, "exists": 1, "busy": 2}
     out = []
+    if st == "removerace":
+        rcode = {"ok": 0, "not_found": 1, "busy": 2}
+        for f in fin:
+            cs = [c for c in calls if c["op"]["k"] == f["k"]]
+            at = "[" + "; ".join("%d" % rcode.get(c["e"], 3) for c in cs) + "]"
+            init = next(o["v"] for o in run["init"] if o["k"] == f["k"])
+            out.append("CRemoveRace %s %s %s" % (at, lit(init), opt(f)))
+        return out
     for f in fin:
         cs = [c for c in calls if c["op"]["k"] == f["k"]]
         if st == "addrace":
             at = "[" + "; ".join("(%s, %d)" % (lit(c["op"]["v"]), code.get(c["e"], 3)) for c in cs) + "]"
             out.append("CAddRace %s %s" % (at, opt(f)))
         else:
-            at = "[" + "; ".join("(%s, %s)" % (lit(c["op"]["v"]), "false" if c["e"] == "ok" else "true") for c in cs) + "]"
+            em = [c for c in cs if c["op"]["op"] == "emplace"]
+            at = "[" + "; ".join("(%s, %s)" % (lit(c["op"]["v"]), "false" if c["e"] == "ok" else "true") for c in em) + "]"
             out.append("CEmplaceRace %s %s" % (at, opt(f)))
+            rd = "[" + "; ".join(lit(c["b"]) for c in cs if c["op"]["op"] == "getbytes" and c["e"] == "ok") + "]"
+            out.append("CReadsFinal %s %s" % (rd, opt(f)))
     return out
 
 
@@ -398,6 +461,9 @@ def run(ck):
 
     for i, r in enumerate(runs):
         r["i"] = i
+        r["final"] = r.get("final") or []
+        if r["backend"] == "sqlite":
+            r["durable"] = r.get("durable") or []
     ncalls = 0
     for r in runs:
         ncalls += len(r["calls"])
@@ -483,11 +549,12 @@ def run(ck):
                  "harness/cmd/c06 (global invocation/return stamps) + checks/c06.py",
                  "modelled not verified: sync.RWMutex, SQLite lock ladder and SQLITE_BUSY, database/sql pooling",
                  "psql_kv.go only through its generated statement table (PostgreSQL cannot run here)"],
-        rule="forced schedule first (walk holding the read lock / SHARED while a Mutate commits, probes during the "
-             "walk); then per backend: short mixed histories (2-3 goroutines x 1-3 calls of incr/append/add/emplace/"
+        rule="forced schedules first (23 per backend: a Walk or a Mutate held inside its callback while every kind "
+             "of writer and reader arrives; holders whose callback fails, cancels or panics; writers afterwards); then per backend: short mixed histories (2-3 goroutines x 1-3 calls of incr/append/add/emplace/"
              "replace/remove/get on 2 keys, all goroutines released by a spin barrier) decided by linearizability "
-             "search; accounting runs with 2..16 goroutines (counters, unique-token appends, add races, emplace "
-             "races); the same under the race detector. A run is non-trivial if some call succeeded and two calls of "
+             "search; accounting runs with 2..16 goroutines (counters, unique-token appends; add, emplace and "
+             "remove races released by a barrier per key, each Emplace followed by a read that must show the final "
+             "value); every third run on the key-hashing kind of store; the same under the race detector. A run is non-trivial if some call succeeded and two calls of "
              "different goroutines overlapped in time; distinct = distinct recorded history",
         assumptions=["BUSY / decode / not-found / exists results mean 'not applied'",
                      "for sqlite the final contents are what is read after closing and reopening the database"])
